@@ -12,7 +12,7 @@ def enumerate_and_run(rep, wd, binpath, specs, alphabet, envsets, maxlen, label,
     sub = os.path.join(wd, label)
     os.makedirs(sub, exist_ok=True)
     fam = refenum.make_family(progs, specs, alphabet, envsets, maxlen)
-    res, cases = refenum.predict(sub, fam, cfg=cfg)
+    res, cases = refenum.predict(sub, fam, cfg=cfg, timeout=4 * 3600)
     rep.add_tlc(res)
     expected = len(specs) * len(envsets) * sum(len(alphabet) ** k for k in range(maxlen + 1))
     if len(cases) != expected:
